@@ -1,14 +1,369 @@
-//! C14 — not implemented yet (stub).
-use crate::report::{Cfg, Meta, Report};
+//! C14 — execution is deterministic and step-through agrees with the trace.
+//!
+//! (a) configuration lattice: same (program, inputs, advice) run twice, with tracing on, with other
+//!     capacity hints, assembled in debug mode, and with debug/emit/trace decorators stripped from
+//!     the source: byte-identical main trace, outputs and cycle count.
+//! (b) random forward/backward walks of the step iterator; every reported VmState(t) is compared
+//!     with row t of the trace: clk, ctx, fmp, top-16, depth, deep part (overflow model rebuilt
+//!     from the trace's own shifts) and memory (memory-chiplet history with clk < t).
+//! (c) every CLK row pushes its own clock value.
+
+use crate::case::{exec_host, AsmOutcome, Case, ExecOutcome};
+use crate::gen::{gen_case, GenCfg};
+use crate::props::c03::traces_equal;
+use crate::report::{merge_all, Cfg, Meta, Report};
+use crate::tview::*;
+use crate::util::{catch, par_map, rng_for, Rng8};
+use processor::{ExecutionOptions, ExecutionTrace, Program, VmState};
+use rand::Rng;
+use serde_json::json;
+use std::collections::BTreeMap;
+use vm_core::StarkField;
 
 pub fn meta() -> Meta {
-    Meta { level: "exploration", rule: "stub".into(), assumptions: vec![] }
+    Meta {
+        level: "exploration",
+        rule: "each evaluation = one (program, inputs) pushed through the configuration lattice (2 identical runs, tracing flag, 2 capacity hints, debug-mode assembly, decorator-stripped source; main traces compared cell by cell) or one VmState reported by execute_iter during a random next()/back() walk compared with the trace row of the same clock; distinct = distinct (check kind, configuration or walk-direction pattern, deep-inputs?, call-active?, trace length)".into(),
+        assumptions: vec![
+            "the trace of a plain processor::execute run is the reference for the iterator".into(),
+            "deep part of the stack is only compared in the root context outside syscalls (where the whole stack is visible)".into(),
+        ],
+    }
 }
 
-pub fn run(_cfg: &Cfg) -> Report {
-    let mut rep = Report::new();
-    rep.inconclusive("not-implemented");
+fn strip_decorators(src: &str) -> String {
+    src.split('\n')
+        .map(|line| {
+            line.split(' ')
+                .filter(|t| !(t.starts_with("debug.") || t.starts_with("emit.") || t.starts_with("trace.")))
+                .collect::<Vec<_>>()
+                .join(" ")
+        })
+        .collect::<Vec<_>>()
+        .join("\n")
+}
+
+fn lattice(case: &Case, prog: &Program, base: &ExecutionTrace, rep: &mut Report) {
+    let deep = case.stack.len() > 16;
+    let wit = |cfgname: &str| json!({"kind": "lattice", "case": case.to_json(), "config": cfgname});
+    let mut cmp = |name: &str, out: ExecOutcome, rep: &mut Report| {
+        rep.eval(&format!("lattice|{name}|{deep}|{}", base.get_trace_len()));
+        rep.count("lattice", name);
+        match out {
+            ExecOutcome::Ok(t) => {
+                if let Some((c, r)) = traces_equal(base, &t) {
+                    rep.violation(format!("nondeterminism/{name}/main-trace"), format!("main trace differs under '{name}' at col {c} row {r}"), wit(name));
+                }
+                if t.stack_outputs().stack() != base.stack_outputs().stack()
+                    || t.stack_outputs().overflow_addrs() != base.stack_outputs().overflow_addrs()
+                {
+                    rep.violation(format!("nondeterminism/{name}/outputs"), format!("outputs differ under '{name}'"), wit(name));
+                }
+            }
+            other => rep.violation(format!("nondeterminism/{name}/outcome"), format!("'{name}': {} instead of success", other.class()), wit(name)),
+        }
+    };
+    cmp("rerun", case.execute(prog), rep);
+    cmp("tracing-on", case.execute_with(prog, ExecutionOptions::default().with_tracing()), rep);
+    let c = base.trace_len_summary().main_trace_len() as u32;
+    for (name, hint) in [("hint-exact", c.max(64)), ("hint-4x", c.max(64).saturating_mul(4)), ("hint-min", 64)] {
+        if let Ok(o) = ExecutionOptions::new(None, hint, false) {
+            cmp(name, case.execute_with(prog, o), rep);
+        }
+    }
+    // debug-mode assembly: same MAST, only AsmOp decorators added
+    let mut dcase = case.clone();
+    dcase.debug_mode = !case.debug_mode;
+    match dcase.assemble() {
+        AsmOutcome::Ok(p2) => {
+            if p2.hash() != prog.hash() {
+                rep.violation("debug-mode/program-hash", "assembling in debug mode changes the program hash", wit("debug-mode"));
+            } else {
+                cmp("debug-mode-assembly", dcase.execute(&p2), rep);
+            }
+        }
+        AsmOutcome::Err(e) => rep.violation("debug-mode/asm-err", format!("debug-mode assembly failed: {e}"), wit("debug-mode")),
+        AsmOutcome::Panic(p) => {
+            rep.count("debug_mode_asm_panic", &p.site());
+        }
+    }
+    // decorators stripped
+    let stripped = strip_decorators(&case.src);
+    if stripped != case.src {
+        let mut scase = case.clone();
+        scase.src = stripped;
+        if let Some(k) = &case.kernel {
+            scase.kernel = Some(strip_decorators(k));
+        }
+        match scase.assemble() {
+            AsmOutcome::Ok(p3) => {
+                if p3.hash() == prog.hash() {
+                    cmp("decorators-stripped", scase.execute(&p3), rep);
+                } else {
+                    // stripping can only change the hash if a block became empty; count it
+                    rep.count("strip", "hash-changed(skipped)");
+                }
+            }
+            _ => rep.count("strip", "asm-failed(skipped)"),
+        }
+    }
+}
+
+/// Overflow model rebuilt from the trace: full stack (top first) at every row of the root context.
+struct StackModel {
+    /// per row: Some(deep part, top first) when the whole stack is visible
+    deep: Vec<Option<Vec<u64>>>,
+    /// the operation at this row pushed to / popped from the overflow table
+    update_at: Vec<bool>,
+}
+
+impl StackModel {
+    /// What the iterator of the unrepaired tree reports (known finding, see known_findings.json):
+    /// an overflow update made by the operation at row t is already visible at clock t (one cycle
+    /// early), and before the first update the rows of the initial deep inputs are missing.
+    fn known_defect_view(&self, t: usize) -> Option<(Vec<u64>, &'static str)> {
+        if t + 1 >= self.deep.len() {
+            return None; // the last clock is reported from the live table and is right
+        }
+        if self.update_at[t] {
+            return self.deep[t + 1].clone().map(|d| (d, "overflow-part-one-cycle-ahead"));
+        }
+        if !self.update_at[..t].iter().any(|u| *u) {
+            return Some((vec![], "initial-overflow-rows-missing"));
+        }
+        None
+    }
+}
+
+fn build_stack_model(case: &Case, tv: &TV) -> StackModel {
+    let n = tv.cycles + 1;
+    let mut deep: Vec<Option<Vec<u64>>> = Vec::with_capacity(n);
+    let mut update_at = vec![false; n];
+    let mut cur: Vec<u64> = case.stack.iter().skip(16).cloned().collect(); // top of overflow first
+    let mut saved: Vec<Vec<u64>> = vec![];
+    for row in 0..n {
+        let in_root = tv.get(CTX, row) == 0 && tv.get(IN_SYSCALL, row) == 0 && saved.is_empty();
+        deep.push(if in_root { Some(cur.clone()) } else { None });
+        if row + 1 >= n {
+            break;
+        }
+        let op = tv.op(row);
+        let (b0, b0n) = (tv.get(B0, row), tv.get(B0, row + 1));
+        if op == OP_CALL || op == OP_SYSCALL {
+            saved.push(std::mem::take(&mut cur));
+        } else if op == OP_END && (tv.get(HASHER + 6, row) == 1 || tv.get(HASHER + 7, row) == 1) {
+            cur = saved.pop().unwrap_or_default();
+        } else if b0n == b0 + 1 {
+            cur.insert(0, tv.get(STACK + 15, row));
+            update_at[row] = true;
+        } else if b0n + 1 == b0 && b0 > 16 && !cur.is_empty() {
+            cur.remove(0);
+            update_at[row] = true;
+        }
+    }
+    StackModel { deep, update_at }
+}
+
+fn check_state(
+    st: &VmState,
+    tv: &TV,
+    model: &StackModel,
+    mem_hist: &BTreeMap<(u64, u64), Vec<(u64, [u64; 4])>>,
+    dir: &str,
+    case: &Case,
+    rep: &mut Report,
+) {
+    let t = st.clk as usize;
+    let wit = || json!({"kind": "walk", "case": case.to_json(), "clk": t, "direction": dir});
+    if t > tv.cycles {
+        rep.violation("iter/clk-beyond-end", format!("iterator reported clk {t} > cycles {}", tv.cycles), wit());
+        return;
+    }
+    let ctx: u32 = st.ctx.into();
+    if tv.get(CLK, t) != t as u64 {
+        rep.violation("trace/clk-column", format!("clk column at row {t} is {}", tv.get(CLK, t)), wit());
+    }
+    if ctx as u64 != tv.get(CTX, t) {
+        rep.violation(format!("iter/ctx/{dir}"), format!("ctx at clk {t}: iterator {ctx} trace {}", tv.get(CTX, t)), wit());
+    }
+    if st.fmp.as_int() != tv.get(FMP, t) {
+        rep.violation(format!("iter/fmp/{dir}"), format!("fmp at clk {t}: iterator {} trace {}", st.fmp.as_int(), tv.get(FMP, t)), wit());
+    }
+    let top = tv.stack_top(t);
+    let got: Vec<u64> = st.stack.iter().map(|x| x.as_int()).collect();
+    if got.len() < 16 || got[..16] != top[..] {
+        rep.violation(format!("iter/stack-top/{dir}"), format!("top-16 at clk {t}: iterator {:?} trace {:?}", &got[..got.len().min(16)], top), wit());
+    }
+    if let Some(deep) = &model.deep[t] {
+        rep.count("deep_checked", if deep.is_empty() { "depth16" } else { "deeper" });
+        let b0 = tv.get(B0, t) as usize;
+        let class = if case.stack.len() > 16 { "deep-inputs" } else { "shallow-inputs" };
+        let got_deep: &[u64] = if got.len() >= 16 { &got[16..] } else { &[] };
+        if got.len() == b0 && got_deep == &deep[..] {
+            // agrees with the trace
+        } else if let Some((view, which)) = model.known_defect_view(t).filter(|(v, _)| &v[..] == got_deep) {
+            // exactly the behaviour of the listed defect; anything else is reported below
+            let _ = view;
+            rep.violation(
+                format!("iter/{which}"),
+                format!("deep part at clk {t}: iterator {:?}, trace row {t} has depth {b0} and overflow {:?}", got_deep, deep),
+                wit(),
+            );
+        } else if got.len() != b0 {
+            rep.violation(format!("iter/stack-depth/{dir}/{class}"), format!("depth at clk {t}: iterator {} trace b0 {b0}", got.len()), wit());
+        } else {
+            rep.violation(format!("iter/stack-deep/{dir}/{class}"), format!("deep part at clk {t}: iterator {:?} model {:?}", got_deep, deep), wit());
+        }
+    }
+    // memory of the current context: all addresses accessed at a clock < t, with their last value
+    let mut expect: Vec<(u64, [u64; 4])> = vec![];
+    for ((c, addr), hist) in mem_hist.range((ctx as u64, 0)..(ctx as u64 + 1, 0)) {
+        debug_assert_eq!(*c, ctx as u64);
+        if let Some((_, w)) = hist.iter().filter(|(clk, _)| (*clk as usize) < t).last() {
+            expect.push((*addr, *w));
+        }
+    }
+    let mut gotm: Vec<(u64, [u64; 4])> =
+        st.memory.iter().map(|(a, w)| (*a, [w[0].as_int(), w[1].as_int(), w[2].as_int(), w[3].as_int()])).collect();
+    gotm.sort();
+    expect.sort();
+    if gotm != expect {
+        rep.violation(format!("iter/memory/{dir}"), format!("memory of ctx {ctx} at clk {t}: iterator {:?} trace history {:?}", gotm, expect), wit());
+    }
+}
+
+fn walk(case: &Case, prog: &Program, base: &ExecutionTrace, rng: &mut Rng8, rep: &mut Report) {
+    let tv = TV::new(base);
+    let model = build_stack_model(case, &tv);
+    let mut mem_hist: BTreeMap<(u64, u64), Vec<(u64, [u64; 4])>> = BTreeMap::new();
+    for r in tv.mem_rows() {
+        mem_hist.entry((r.ctx, r.addr)).or_default().push((r.clk, r.word));
+    }
+    for h in mem_hist.values_mut() {
+        h.sort();
+    }
+    let si = case.stack_inputs();
+    let host = case.host();
+    let mut it = match catch(|| processor::execute_iter(prog, si, host)) {
+        Ok(it) => it,
+        Err(p) => {
+            rep.violation(format!("iter/panic/{}", p.site()), format!("execute_iter panicked: {}", p.message), json!({"kind": "walk", "case": case.to_json()}));
+            return;
+        }
+    };
+    let deep = case.stack.len() > 16;
+    let calls = (0..tv.cycles).any(|r| tv.get(CTX, r) != 0);
+    // walk pattern: bursts forward/backward, then a full forward sweep
+    let steps = (tv.cycles * 3).min(4000);
+    let mut dir_changes = 0;
+    let mut forward = true;
+    let mut i = 0;
+    let mut reached_end = false;
+    while i < steps {
+        let burst = rng.gen_range(1..30);
+        for _ in 0..burst {
+            let r = catch(|| if forward { it.next().map(|x| x.ok()) } else { Some(it.back()) });
+            match r {
+                Ok(Some(Some(st))) => {
+                    rep.eval(&format!("walk|{}|{deep}|{calls}|{}", if forward { "fwd" } else { "back" }, base.get_trace_len()));
+                    rep.count("walk_states", if forward { "forward" } else { "backward" });
+                    check_state(&st, &tv, &model, &mem_hist, if forward { "forward" } else { "backward" }, case, rep);
+                }
+                Ok(Some(None)) | Ok(None) => {
+                    if forward {
+                        reached_end = true;
+                    }
+                    break;
+                }
+                Err(p) => {
+                    rep.violation(format!("iter/panic/{}", p.site()), format!("iterator panicked: {}", p.message), json!({"kind": "walk", "case": case.to_json()}));
+                    return;
+                }
+            }
+            i += 1;
+        }
+        // after the end is reached only go backwards for a while, then forward again
+        forward = if reached_end { false } else { rng.gen_bool(0.65) };
+        reached_end = false;
+        dir_changes += 1;
+    }
+    rep.count("walk_dir_changes", &format!("{}", (dir_changes / 10) * 10));
+    rep.count("walk_class", &format!("deep_inputs={deep},calls={calls}"));
+}
+
+fn clk_rows(case: &Case, base: &ExecutionTrace, rep: &mut Report) {
+    let tv = TV::new(base);
+    for r in 0..tv.cycles {
+        if tv.op(r) == OP_CLK {
+            rep.evals(1);
+            rep.count("clk_rows", "checked");
+            if tv.get(STACK, r + 1) != r as u64 {
+                rep.violation("clk/pushes-wrong-value", format!("clk at cycle {r} pushed {}", tv.get(STACK, r + 1)), json!({"kind": "lattice", "case": case.to_json()}));
+            }
+        }
+    }
+}
+
+pub fn run_case(case: &Case, rng: &mut Rng8, rep: &mut Report, do_walk: bool) {
+    let prog = match case.assemble() {
+        AsmOutcome::Ok(p) => p,
+        _ => {
+            rep.count("outcome", "asm-fail");
+            return;
+        }
+    };
+    let base = match case.execute(&prog) {
+        ExecOutcome::Ok(t) => t,
+        _ => {
+            rep.count("outcome", "exec-fail");
+            return;
+        }
+    };
+    rep.count("outcome", "ok");
+    lattice(case, &prog, &base, rep);
+    clk_rows(case, &base, rep);
+    if do_walk {
+        walk(case, &prog, &base, rng, rep);
+    }
+    if rep.samples.len() < 3 {
+        rep.sample(json!({"src": crate::report::truncate(&case.src, 200), "stack_inputs": case.stack.len(), "cycles": base.trace_len_summary().main_trace_len()}));
+    }
+    let _ = exec_host::<crate::host::QuietHost>;
+}
+
+pub fn run(cfg: &Cfg) -> Report {
+    let shards = 32;
+    let per = cfg.n(10, 200);
+    let reports = par_map(shards, |sh| {
+        let mut rng = rng_for(cfg.seed, "C14", sh as u64);
+        let mut rep = Report::new();
+        for i in 0..per {
+            let size = rng.gen_range(3..40);
+            let mut gc = GenCfg::random(&mut rng, size);
+            if i % 2 == 0 {
+                gc.decorators = true;
+            }
+            let mut case = gen_case(&mut rng, &gc);
+            if i % 5 == 0 {
+                // make sure the clk instruction is exercised at scripted places
+                case.src = case.src.replacen("begin\n", "begin\nclk drop\n", 1).replacen("\nend\n", "\nclk drop\nend\n", 1);
+            }
+            run_case(&case, &mut rng, &mut rep, true);
+        }
+        rep
+    });
+    let mut rep = merge_all(reports);
+    rep.floor(rep.get_count("lattice", "debug-mode-assembly") >= 20, "debug-mode-assembly-20x");
+    rep.floor(rep.get_count("lattice", "decorators-stripped") >= 10, "decorators-stripped-10x");
+    rep.floor(rep.get_count("walk_states", "backward") >= 1000, "1000-backward-states");
+    rep.floor(rep.get_count("deep_checked", "deeper") >= 100, "deep-stack-states-100x");
+    rep.floor(rep.get_count("clk_rows", "checked") >= 10, "clk-rows-10x");
     rep
 }
 
-pub fn replay(_v: &serde_json::Value, _rep: &mut Report) {}
+pub fn replay(v: &serde_json::Value, rep: &mut Report) {
+    if let Some(case) = v.get("case").and_then(Case::from_json) {
+        let mut rng = rng_for(0, "C14-replay", 0);
+        run_case(&case, &mut rng, rep, true);
+    }
+}
